@@ -22,7 +22,17 @@ pub fn check(_ctx: &Ctx, st: &mut Stats, c: &Case) {
     p0.extreme_latitude_method = ExtremeLatitudeMethod::None;
     let date = s2d(&c.date);
     let l = c.site.loc();
-    let (Ok(base), Ok(res)) = (call(st, &p0, l, date, None), call(st, &p, l, date, None)) else {
+    // route diversity: every 16th case reads the policy result off the RANGE API (last date of a short range)
+    let via_range = hash64(&c.date) % 16 == 3;
+    let res_call = if via_range {
+        st.count("policy_result_read_via_range_api");
+        st.evaluations += 1;
+        let dr = DateRange::from(from_ce(ce(date) - (hash64(&c.date) % 5) as i32 - 1)..=date);
+        super::guarded(|| prayer_times_dt_rng(&p, l, &dr)).and_then(|mut m| m.remove(&date).ok_or_else(|| "date missing from range result".to_string()))
+    } else {
+        call(st, &p, l, date, None)
+    };
+    let (Ok(base), Ok(res)) = (call(st, &p0, l, date, None), res_call) else {
         st.count("panicked_cannot_decide(see C07)");
         return;
     };
@@ -195,7 +205,8 @@ pub fn run(ctx: &Ctx, st: &mut Stats) {
         let method = r.int(1, 8) as usize;
         for pol in pols {
             let pl = if is_nearest_lat(pol) {
-                Some(match r.int(0, 5) {
+                Some(match r.int(0, 6) {
+                    6 => site.lat.0, // substitute bit-equal to the site's own latitude: values equal, flags still required
                     0 => 48.5,
                     1 => -48.5,
                     2 => 0.0,
